@@ -252,6 +252,14 @@ def _array_dtype(names, values):
     return vector.array([tuple(values[n] for n in names)], dtype=[(n, np.float64) for n in names])
 
 
+def _array_dtype_positional(names, values):
+    return vector.array([tuple(values[n] for n in names)], [(n, np.float64) for n in names])
+
+
+def _array_dtype_object_positional(names, values):
+    return vector.array([tuple(values[n] for n in names)], np.dtype([(n, np.float64) for n in names]))
+
+
 def _zip(names, values):
     return vector.zip({n: ak.Array([values[n]]) for n in names})
 
@@ -337,7 +345,8 @@ def check_repeat_calls(res: Result, names, want, case):
             res.nontrivial += 1
 
 
-ARRAY_CTORS = {"array(dict)": _array_dict, "array(dtype)": _array_dtype, "zip": _zip, "Array": _Array}
+ARRAY_CTORS = {"array(dict)": _array_dict, "array(dtype)": _array_dtype, "array(rows, dtype positional)": _array_dtype_positional, "array(rows, numpy.dtype positional)": _array_dtype_object_positional,
+               "zip": _zip, "Array": _Array}
 
 GOOD_KINDS = {"int": lambda x: int(x), "numpy.float64": lambda x: np.float64(x), "numpy.int32": lambda x: np.int32(int(x)), "numpy.float32": lambda x: np.float32(x)}
 BAD_KINDS = {"bool": lambda x: True, "None": lambda x: None, "str": lambda x: "1.0", "complex": lambda x: complex(x, 1.0), "list": lambda x: [x], "numpy.bool_": lambda x: np.bool_(True)}
